@@ -110,7 +110,7 @@ def run(ctx):
     n = 150 if ctx.tier == 'quick' else 4000
     for name, root, rs in cases(ctx, n):
         one_case(ctx, name, root, rs)
-        if len(ctx.violations) >= 3:
+        if ctx.n_new() >= 3:
             break
 
 
